@@ -242,6 +242,11 @@ class AnalyzerCorr(Corr):
         if "error" in added:
             obs["add_error"] = added["error"]
             return obs
+        # read-only accessors first: none of them may change the table the analysis reads
+        if len(an.df) > 0 and len(case["scenes"][0]) % 2 == 1:
+            guarded(lambda: (an.sortby("x"), an.sortby(["y", "x"], ascending=True), an.sortby("confidence"), an.head(3), an.tail(2), an.keys(),
+                             an.shape(), an.get(scene=0), an.get_ground_truth(status="FN"), an.get_estimation(label="car")) and None)
+            obs["accessors_first"] = True
         df = an.df
         obs["num_scene"], obs["num_frame"] = an.num_scene, an.num_frame
         cols = ["uuid", "label", "x", "y", "yaw", "status", "area", "frame", "scene", "distance", "width", "length"]
@@ -458,7 +463,7 @@ class AnalyzerCorr(Corr):
                              "cm": obs.get("cm")}}
 
     def distribution(self, cases, obs):
-        d = {"frames": {"base_link": 0, "map": 0}, "div": {1: 0, 3: 0, 9: 0}, "cfg": {0: 0, 1: 0, 2: 0, 3: 0}, "mixed_label_tp_cases(F15 class)": 0, "scenes2": 0, "n_frames": 0, "rows": 0,
+        d = {"frames": {"base_link": 0, "map": 0}, "div": {1: 0, 3: 0, 9: 0}, "cfg": {0: 0, 1: 0, 2: 0, 3: 0}, "mixed_label_tp_cases(F15 class)": 0, "read_only_accessors_called_first": 0, "scenes2": 0, "n_frames": 0, "rows": 0,
              "tp": 0, "fp_with_gt": 0, "fp_without_gt": 0, "tn": 0, "fn": 0, "fp_pairs_with_ordinary_gt(F11 class)": 0, "frames_in_F11_class": 0,
              "rows_area_none": 0, "rows_on_grid_line": 0, "empty_tables": 0, "yaw_ambiguous_cases": 0, "fp_labelled_gt_rows": 0, "analyze_empty": 0}
         for c, o in zip(cases, obs):
@@ -470,6 +475,7 @@ class AnalyzerCorr(Corr):
             d["scenes2"] += len(c["scenes"]) == 2
             d["yaw_ambiguous_cases"] += self.ambiguous(o)
             d["mixed_label_tp_cases(F15 class)"] += mixed_label_tp(o)
+            d["read_only_accessors_called_first"] += bool(o.get("accessors_first"))
             for sc in o["facts"]:
                 for f in sc:
                     d["n_frames"] += 1
